@@ -69,6 +69,29 @@ pub struct MetaB {
     pub sha: String,
 }
 
+#[derive(Serialize, Deserialize, Clone, Debug, PartialEq)]
+pub struct MetaLoose {
+    pub version: String,
+}
+
+impl MetaT for MetaLoose {
+    fn to_val(&self) -> MetaVal {
+        MetaVal::Loose {
+            version: self.version.clone(),
+        }
+    }
+    fn from_val(v: &MetaVal) -> Self {
+        match v {
+            MetaVal::Loose { version } | MetaVal::A { version } => MetaLoose {
+                version: version.clone(),
+            },
+            _ => MetaLoose {
+                version: String::new(),
+            },
+        }
+    }
+}
+
 pub trait MetaT: Serialize + DeserializeOwned + Clone + 'static {
     fn to_val(&self) -> MetaVal;
     fn from_val(v: &MetaVal) -> Self;
@@ -82,7 +105,8 @@ impl MetaT for GenericMetadata {
         }
     }
     fn from_val(v: &MetaVal) -> Self {
-        v.table()
+        // as author code that fills a table from a HashMap would
+        v.table().map(|t| crate::e2::tval::reinsert_in_hash_order(&t))
     }
 }
 
@@ -217,6 +241,7 @@ impl<MAC: 'static, RAC: 'static> RefOps for LayerRef<SimBp, MAC, RAC> {
             }
             MetaVal::A { .. } => LayerRef::write_metadata(self, MetaA::from_val(m)),
             MetaVal::B { .. } => LayerRef::write_metadata(self, MetaB::from_val(m)),
+            MetaVal::Loose { .. } => LayerRef::write_metadata(self, MetaLoose::from_val(m)),
         }
         .map_err(conv_err)
     }
@@ -402,6 +427,9 @@ impl World {
                     MetaKind::B => self.run_cached::<MetaB>(
                         *id, *layer, *build, *launch, *enc_restored, *enc_invalid, *restored, invalid, log,
                     ),
+                    MetaKind::Loose => self.run_cached::<MetaLoose>(
+                        *id, *layer, *build, *launch, *enc_restored, *enc_invalid, *restored, invalid, log,
+                    ),
                 };
                 self.finish_struct(*layer, out)
             }
@@ -440,6 +468,7 @@ impl World {
                     }
                     MetaKind::A => self.run_handle::<MetaA>(*id, *layer, types, *strategy, migration, result, log),
                     MetaKind::B => self.run_handle::<MetaB>(*id, *layer, types, *strategy, migration, result, log),
+                    MetaKind::Loose => self.run_handle::<MetaLoose>(*id, *layer, types, *strategy, migration, result, log),
                 }
             }
             Op::WriteMetadata { layer, meta } => unit(self.refs[layer].write_metadata(meta)),
